@@ -15,6 +15,7 @@ import (
 	"net"
 	"net/http"
 	"regexp"
+	"strconv"
 	"strings"
 	"sync"
 )
@@ -125,5 +126,24 @@ func acceptsGzip(r *http.Request) bool {
 			return false
 		}
 	}
-	return strings.Contains(r.Header.Get(headerAcceptEncoding), encodingGzip)
+	for _, enc := range strings.Split(r.Header.Get(headerAcceptEncoding), ",") {
+		coding, params, _ := strings.Cut(enc, ";")
+		if strings.TrimSpace(coding) == encodingGzip {
+			return !zeroWeight(params)
+		}
+	}
+	return false
+}
+
+// zeroWeight reports whether the parameters of an Accept-Encoding
+// element contain the weight q=0 which means "not acceptable".
+func zeroWeight(params string) bool {
+	for _, p := range strings.Split(params, ";") {
+		name, value, _ := strings.Cut(p, "=")
+		if name = strings.TrimSpace(name); name == "q" || name == "Q" {
+			q, err := strconv.ParseFloat(strings.TrimSpace(value), 64)
+			return err == nil && q == 0
+		}
+	}
+	return false
 }
